@@ -136,22 +136,49 @@ Theorem c12_valid_replies_accepted : forall txid1 txid2 ih pid port v6 ans1 ans2
   ((length d2 - 20) mod stride v6 <> 0 -> r_result r = Fail FPeerList)%nat.
 Proof. exact session_complete. Qed.
 
-(** the headline, outside the known class [oversize] (reply longer than the receive buffer) *)
-Theorem c12_peers_exactly_the_records_unless_oversize :
+(** (T) the receive buffer regenerated from the source holds every datagram UDP can deliver
+    ([max_udp_payload] = 65527 = 65535 - 8; 65507 over IPv4) — a smaller RX_BUF_LEN breaks this *)
+Theorem c12_receive_buffer_holds_any_udp_datagram :
+  (max_udp_payload <= announce_buf)%nat /\ max_udp_payload = N.to_nat 65527 /\
+  announce_buf = N.to_nat rx_buf_len /\
+  (forall d, udp_deliverable d <-> (length d <= max_udp_payload)%nat).
+Proof.
+  exact (conj buffer_holds_any_datagram (conj eq_refl (conj eq_refl (fun d => conj (fun H => H) (fun H => H))))).
+Qed.
+
+(** the headline, for every datagram a UDP socket can deliver ([udp_deliverable]: the explicit
+    hypothesis about UDP): valid replies yield exactly the records of the whole announce reply *)
+Theorem c12_peers_exactly_the_records :
   forall txid1 txid2 ih pid port v6 ans1 ans2 i1 d1 i2 d2,
-  ~ oversize d2 ->
+  udp_deliverable d2 ->
   first_answer ans1 = Some (i1, d1) -> (i1 < 3)%nat -> valid_reply 16 0 txid1 (firstn connect_buf d1) ->
   first_answer ans2 = Some (i2, d2) -> (i2 < 3)%nat -> valid_reply 20 1 txid2 d2 ->
   ((length d2 - 20) mod stride v6 = 0)%nat ->
   r_result (session txid1 txid2 ih pid port v6 ans1 ans2) =
     Ok (map (record (stride v6)) (chunks (stride v6) (skipn 20 d2))).
-Proof. exact session_exact_unless_oversize. Qed.
+Proof. exact session_exact. Qed.
+
+(** and only those: reported peers are the records of the whole accepted datagram, nothing cut *)
+Theorem c12_only_the_records_of_the_whole_reply :
+  forall txid1 txid2 ih pid port v6 ans1 ans2 l,
+  (forall i d, first_answer ans2 = Some (i, d) -> udp_deliverable d) ->
+  r_result (session txid1 txid2 ih pid port v6 ans1 ans2) = Ok l ->
+  exists i d, first_answer ans2 = Some (i, d) /\ (i < 3)%nat /\
+    valid_reply 20 1 txid2 d /\
+    (length (skipn 20 d) mod stride v6 = 0)%nat /\
+    l = map (record (stride v6)) (chunks (stride v6) (skipn 20 d)).
+Proof. exact session_peers_deliverable. Qed.
+
+(** beyond the buffer (unreachable for UDP) the client would see the first [announce_buf] bytes *)
+Theorem c12_beyond_buffer_truncated : forall d : list N,
+  (announce_buf <= length d)%nat -> length (firstn announce_buf d) = announce_buf.
+Proof. exact beyond_buffer_truncated. Qed.
 
 Example c12_hypotheses_satisfiable :
   first_answer [None; Some ex_connect_reply] = Some (1%nat, ex_connect_reply) /\
   valid_reply 16 0 5 (firstn connect_buf ex_connect_reply) /\
   first_answer [None; None; Some ex_announce_reply] = Some (2%nat, ex_announce_reply) /\
-  valid_reply 20 1 7 ex_announce_reply /\ ~ oversize ex_announce_reply /\
+  valid_reply 20 1 7 ex_announce_reply /\ udp_deliverable ex_announce_reply /\
   ((length ex_announce_reply - 20) mod stride false = 0)%nat.
 Proof. exact example_valid_replies. Qed.
 
@@ -175,15 +202,6 @@ Example c12_example_rejections :
   r_result (session 5 7 (repeat 1 20) (repeat 2 20) 40000 false [Some (be 4 0 ++ be 4 6 ++ be 8 99)] [Some ex_announce_reply])
     = Fail FResponse.
 Proof. exact example_rejections. Qed.
-
-(** OPEN FINDING, class oversize-reply-truncated: inside the known class the statement is false —
-    a valid reply with 1363 IPv4 records yields fewer peers than it lists *)
-Theorem c12_oversize_reply_loses_peers :
-  exists d l, oversize d /\ valid_reply 20 1 7 d /\ ((length d - 20) mod 6 = 0)%nat /\
-    r_result (session 5 7 (repeat 0 20) (repeat 0 20) 6881 false
-                [Some (be 4 0 ++ be 4 5 ++ be 8 99)] [Some d]) = Ok l /\
-    (length l < (length d - 20) / 6)%nat.
-Proof. exact oversize_loses_peers. Qed.
 
 (** each peer is printed once (`HashSet`), and nothing else is printed *)
 Theorem c12_printed_each_once : forall l,
@@ -209,10 +227,12 @@ Print Assumptions c12_never_crashes.
 Print Assumptions c12_at_most_three.
 Print Assumptions c12_no_invented_peers.
 Print Assumptions c12_valid_replies_accepted.
-Print Assumptions c12_peers_exactly_the_records_unless_oversize.
+Print Assumptions c12_receive_buffer_holds_any_udp_datagram.
+Print Assumptions c12_peers_exactly_the_records.
+Print Assumptions c12_only_the_records_of_the_whole_reply.
+Print Assumptions c12_beyond_buffer_truncated.
 Print Assumptions c12_hypotheses_satisfiable.
 Print Assumptions c12_example_session.
 Print Assumptions c12_example_rejections.
-Print Assumptions c12_oversize_reply_loses_peers.
 Print Assumptions c12_printed_each_once.
 Print Assumptions c12_url_screening.
